@@ -288,7 +288,8 @@ def number(ctx, terminator=never):
     raise reports.RecoverableError("Local label, not a number")
 
 
-radix50_chars = Parser.regex("[" + re.escape(radix50.TABLE.replace(" ", "")) + "]+", skip_whitespace_before=False)
+# (?a): letters are matched case-insensitively, but U+017F and U+212A are not ASCII 's' and 'k'
+radix50_chars = Parser.regex("(?a:[" + re.escape(radix50.TABLE.replace(" ", "")) + "]+)", skip_whitespace_before=False)
 
 @Parser
 def radix50_literal(ctx):
